@@ -894,6 +894,19 @@ def d47():
         return value
 """)])
 
+@fix('D13', "fix: a module exports its structure types, not its global variables, as types\n\nv_Module stored a dict {global name: type of the global} under\nMetadata['types'], while ComputeTypes iterates that entry and registers each\nelement as a named type: importing any module that declares a global variable\nfailed with AssertionError, and structure types were never exported.")
+def d13():
+    patch('nsl/passes/LowerToIR.py', [(
+"""        ctx.Module.Metadata["types"] = {
+            d.GetName(): d.GetType()
+            for d in itertools.chain(
+                *[gd.GetDeclarations() for gd in module.GetDeclarations()]
+            )
+        }
+""",
+"""        ctx.Module.Metadata["types"] = [t.GetType() for t in module.GetTypes()]
+""")])
+
 @fix('D21', "fix: %, && and || on vectors and matrices are lowered and executed component-wise\n\nTyping accepts `a % b`, `a && b`, `a || b` for two vectors or two matrices of the\nsame shape, but FromOperation had no vector opcode for them (VECTOR_MOD was declared\nbut unused), so lowering died with KeyError.")
 def d21():
     patch('nsl/LinearIR.py', [
